@@ -129,6 +129,14 @@ Theorem c09_safe_borrow_predicate : forall b, borrow_unsafe b = true ->
 Proof. exact borrow_unsafe_spec. Qed.
 Print Assumptions c09_safe_borrow_predicate.
 
+(* the one-pass evaluation the runner extracts (ratio computed once) is exactly the rule, the ratio,
+   the applicable threshold and the safety predicate *)
+Theorem c09_borrow_eval : forall g b,
+  e_v (borrow_eval g b) = seize_rule_borrow g b /\ e_cr (borrow_eval g b) = lend_cr b /\
+  e_th (borrow_eval g b) = applicable_threshold b /\ e_unsafe (borrow_eval g b) = borrow_unsafe b.
+Proof. exact borrow_eval_spec. Qed.
+Print Assumptions c09_borrow_eval.
+
 (* non-vacuity: collateral 100 (price 1.6, 10^6 decimals), debt 40 (price 2.0): ratio 0.5.
    Collateral threshold 0.55 (e-mode 0.95), first transit 0.85, second transit 0.75:
      same pool 0.55 -> kept; first transit 0.4675 -> seized; second transit 0.4125 -> seized;
@@ -226,6 +234,18 @@ Proof.
   intros zs w w'. split; [apply handover_borrow_spec|intros ->; apply handover_borrow_holds].
 Qed.
 Print Assumptions c09_handover_borrow_predicate.
+
+(* anyone's EXTERNAL liquidate message: exactly the offered collateral enters auction custody, exactly
+   one locked vault and one auction are opened for it, no borrow, lend position or statistic changes *)
+Theorem c09_exact_handover_external : forall w denom amt,
+  let w' := ext_world w denom amt in
+  kget (w_bal w') (auction_acc, denom) = kget (w_bal w) (auction_acc, denom) + amt /\
+  (forall k, k <> (auction_acc, denom) -> kget (w_bal w') k = kget (w_bal w) k) /\
+  w_locked w' = w_locked w ++ [(0, amt)] /\ w_auction w' = w_auction w ++ [(0, amt)] /\
+  w_liq w' = w_liq w /\ w_lend w' = w_lend w /\ w_tlend w' = w_tlend w /\ w_tborrow w' = w_tborrow w /\
+  w_tstable w' = w_tstable w /\ w_supply w' = w_supply w.
+Proof. exact handover_external_one. Qed.
+Print Assumptions c09_exact_handover_external.
 
 (* non-vacuity: two seizures (one variable-rate same-pool, one stable cross-pool) on a world with
    balances, statistics and lend positions; the second lend position is used up and deleted *)
@@ -413,6 +433,27 @@ Example c09_live_borrow_nonvacuous :
   bs_liq (fold_left (bev_step 2) (bblocks_of (repeat vf 3)) (mkB [0;1;2;3;4] 4 [])) = [3] /\
   live_R 5 2 = 4 /\ two_sweeps 5 2 = 6.
 Proof. vm_compute. repeat split; intros; try discriminate; try (intuition discriminate). Qed.
+
+(* the batch size.  Every batch size the parameter validation admits (since fix C09-F4: 1 <= b < 2^63)
+   meets the hypothesis 1 <= b of the liveness theorems, and the sweeps' int(...) conversion of it is the
+   identity ... *)
+Theorem c09_valid_batch : forall b, valid_batch b = true -> 1 <= b /\ int_of_u64 b = b /\ u64 b = b.
+Proof. exact valid_batch_spec. Qed.
+Print Assumptions c09_valid_batch.
+
+(* ... while a stored size of 2^63 .. 2^64-1 (accepted before the fix: "v <= 0" is the only test on a
+   uint64) converts to a negative int: the window is empty in EVERY block, for every list and offset -
+   no position is ever swept (regression witness: harness TestC09Borrow directed cases gov-batch) *)
+Theorem c09_invalid_batch_sweeps_nothing : forall b len off, two63 <= b < two64 -> 0 <= len ->
+  sweep_window len off (int_of_u64 b) = (len, len).
+Proof. exact invalid_batch_sweeps_nothing. Qed.
+Print Assumptions c09_invalid_batch_sweeps_nothing.
+
+Example c09_batch_nonvacuous :
+  valid_batch 1 = true /\ valid_batch 9223372036854775807 = true /\ valid_batch 0 = false /\
+  valid_batch 9223372036854775808 = false /\ valid_batch 18446744073709551615 = false /\
+  sweep_window 5 2 (int_of_u64 9223372036854775808) = (5, 5) /\ sweep_window 5 2 9223372036854775807 = (2, 5).
+Proof. vm_compute. repeat split. Qed.
 
 (* ---- regressions: the witnesses of the repaired findings now pass ---- *)
 (* C09-F2 (was c09_live_v2_refuted: "forall k, run_v2 k v2_starved = v2_starved"): 2 vaults,
